@@ -42,7 +42,8 @@ class UnitLog:
         return self.d
 
 
-MAX_CEX_PER_PROCESS = 3
+import os as _os
+MAX_CEX_PER_PROCESS = 10 ** 9 if _os.environ.get('SYMX_NO_EARLY_STOP') else 3
 _CEX_SEEN = [0]
 
 
